@@ -376,10 +376,12 @@ def judge_run(case, res, name, cls, n_in, ref, bound):
         total_written += len(r1)
         ids = [C.rid(r[0]) for r in r1]
         idx = [int(i[2:]) if i else -1 for i in ids]
-        if any(b <= a for a, b in zip(idx, idx[1:])):
+        # after a flipped bit inside a compressed stream the decoded text itself may be garbage
+        # (changed ids included): order and uniqueness are only judged for the other faults
+        if bound != -1 and any(b <= a for a, b in zip(idx, idx[1:])):
             out.append(C.V("output-order", f"{name}: {d['paths'][0]}: records not in input order: {ids[:12]}"))
         for i in ids:
-            if i in seen:
+            if i in seen and bound != -1:
                 out.append(C.V("duplicate-record", f"{name}: {i} written to {seen[i]} and {d['paths'][0]}"))
             seen[i] = d["paths"][0]
         # prefix of the reference run on the un-faulted input
